@@ -566,3 +566,14 @@ def rule_rng(repo):
     R.check(ok, "rng:U256::random", "U256::random is not `U512::random(rng).divrem(modulo).1`: %s" % show(rv, maxdepth=4)[:200], b.file_line(), b.rec["path"],
             sample={"fn": b.rec["path"], "returns": show(rv, maxdepth=4)[:200]})
     return R.finish()
+
+
+def is_canon_conv(t, ap):
+    """Is term `t` the Montgomery→canonical conversion U256::from(x) / x.into() of a value of prime-field type `ap`? Returns x or None."""
+    t = strip(t)
+    if t[0] != "call" or len(t[2]) != 1 or t[1].name not in ("from", "into"):
+        return None
+    s = t[1].i + " " + (t[1].get("inst") or "")
+    if ("From<%s> for crate::u256::U256" % ap) in s or ("%s as core::convert::Into<crate::u256::U256>" % ap) in s:
+        return strip(t[2][0])
+    return None
